@@ -332,9 +332,18 @@ def fu(q):
     return [float(q.value), q.unit]
 
 
-def history(pt, els):
+def complete_instants(pt, els):
+    """number of instants every list holds a sample for (an exception in the middle of an instant leaves ragged lists)"""
+    n = len(pt.time)
+    for e in els:
+        for v in e.time_variables.values():
+            n = min(n, len(v))
+    return n
+
+
+def history(pt, els, n=None):
     rows = []
-    for k, t in enumerate(pt.time):
+    for k, t in enumerate(pt.time if n is None else pt.time[:n]):
         row = dict(time=fu(t))
         for name, short in VARS:
             row[short] = [fu(e.time_variables[name][k]) for e in els]
@@ -348,7 +357,7 @@ def run_impl(sc, timeout=20, keep_objects=False):
     """returns dict(static=..., rows=[...], locked=bool, err=None|class, marks=[len(time) after each op], oracle=[...])"""
     signal.signal(signal.SIGALRM, _alarm)
     signal.alarm(timeout)
-    res = dict(err=None, rows=None, locked=None, marks=[], oracle=[], flags=[])
+    res = dict(err=None, rows=None, locked=None, marks=[], oracle=[], flags=[], pre=[], part=[])
     try:
         try:
             pt, els = build(sc)
@@ -393,7 +402,9 @@ def run_impl(sc, timeout=20, keep_objects=False):
                     finally:
                         harvest()
                 elif op[0] == 'reset':
+                    before = history(pt, els)
                     pt.reset()
+                    res['pre'].append(before)
                 elif op[0] == 'newsolver':
                     solver = Solver(pt)
                 elif op[0] == 'setinit':
@@ -412,6 +423,10 @@ def run_impl(sc, timeout=20, keep_objects=False):
             res['errmsg'] = str(e)[:200]
             import traceback as _tb
             res['errwhere'] = [f.name for f in _tb.extract_tb(e.__traceback__) if 'gearpy' in f.filename][-4:]
+            try:
+                res['part'] = history(pt, els, complete_instants(pt, els))
+            except Exception:  # noqa
+                res['part'] = []
         if res['err'] is None:
             res['rows'] = history(pt, els)
             res['locked'] = bool(solver._Solver__powertrain_is_locked)
@@ -504,11 +519,12 @@ def case_coq(sc, res):
     if res['err'] is None:
         exp = f'(EHist {clist([crow(r) for r in res["rows"]])} {"true" if res["locked"] else "false"})'
     elif res['err'].startswith('Other'):
-        exp = '(EErr OracleMiss)'
+        exp = f'(EErr OracleMiss {clist([crow(r) for r in res["part"]])})'
     else:
-        exp = f'(EErr {res["err"]})'
+        exp = f'(EErr {res["err"]} {clist([crow(r) for r in res["part"]])})'
     return (f'{{| k_chain := {chain}; k_load := {load}; k_pos0 := {cq(sc["pos0"])}; k_spd0 := {cq(sc["spd0"])}; '
-            f'k_ops := {clist([cop(o) for o in first_ops])}; k_more := {more}; k_expect := {exp} |}}')
+            f'k_ops := {clist([cop(o) for o in first_ops])}; k_more := {more}; '
+            f'k_pre := {clist([clist([crow(r) for r in h]) for h in res["pre"]])}; k_expect := {exp} |}}')
 
 
 HEADER = """From Coq Require Import ZArith String List PrimFloat.
